@@ -104,6 +104,9 @@ BOUNDARY = [
     # 5.2 + GFM tables: a line with a list marker starts an item, also when the item begins with a table (only a thematic break wins)
     (['- a', '- | x |', '  |---|', '- - -', '- b'],
      '<ul>\n<li>a</li>\n<li>\n<table>\n<thead>\n<tr>\n<th align="left">x</th>\n</tr>\n</thead>\n<tbody>\n</tbody>\n</table>\n</li>\n</ul>\n<hr />\n<ul>\n<li>b</li>\n</ul>'),
+    # 4.6 condition 6: the tag name may be followed by '/>' as well as by a space, a tab, '>' or the end of the line - such a
+    # block interrupts a paragraph
+    (['text', '<hr/>', '', 'text', '<div/>x', '', '<HR/>', '*a*'], '<p>text</p>\n<hr/>\n<p>text</p>\n<div/>x\n<HR/>\n*a*'),
 ]
 LEAVES = LEAVES + ['boundary:%d' % i for i in range(len(BOUNDARY))]
 
